@@ -9,6 +9,7 @@ import Proofs.C04_Count
 import Proofs.C04_Identity
 import Proofs.C04_Accept
 import Proofs.C04_Hist
+import Proofs.C04_Family
 import Mathlib.Tactic.Ring
 import Mathlib.Tactic.Linarith
 import Mathlib.Tactic.Positivity
